@@ -23,7 +23,7 @@ Definition ex_good : list (bool * nat * list action) :=
 
 Lemma ex_good_well_locked : well_locked ex_P ex_good.
 Proof.
-  split.
+  split; [|split].
   - intros run lab p Hin. cbn in Hin.
     destruct Hin as [H|[H|[H|[]]]]; inversion H; subst; vm_compute; reflexivity.
   - intros x t Hp i j Hi Hj. unfold ex_P in Hp.
@@ -31,6 +31,9 @@ Proof.
     inversion Hp; subst. cbn in Hi, Hj.
     destruct i as [|[|[|i]]]; cbn in Hi; try discriminate; try (destruct i; discriminate);
     destruct j as [|[|[|j]]]; cbn in Hj; try discriminate; try (destruct j; discriminate); reflexivity.
+  - intros x ip ic Hp. unfold ex_P in Hp.
+    destruct (N.eqb x 1); [discriminate|]. destruct (N.eqb x 2); [discriminate|].
+    destruct (N.eqb x 3); discriminate.
 Qed.
 
 Theorem ex_good_race_free : forall s, reachable (init_state ex_good) s -> ~ race s.
@@ -61,6 +64,46 @@ Theorem ex_bad_not_well_locked : forall P, ~ well_locked P ex_bad.
 Proof.
   intros P Hwl. destruct ex_bad_race_reachable as [s [Hr Hrace]].
   exact (lockset_sound P ex_bad Hwl s Hr Hrace).
+Qed.
+
+(* ---------------------------------------------------------------- happens-before by spawn *)
+(* the constructor pattern: thread 0 initialises location 7 without any lock, then starts thread 1
+   (go f()), which from then on is the only one to touch it; thread 2 never does *)
+Definition ex_hb_P : pmap := fun x => if N.eqb x 7 then Some (PHandoff 0 1) else None.
+Definition ex_hb_good : list (bool * nat * list action) :=
+  [ (true, 0, [AWrite 7%N; ARead 7%N; ASpawn 1; ASkip]);
+    (false, 1, [ARead 7%N; AWrite 7%N]);
+    (true, 2, [ASkip]) ].
+
+Lemma ex_hb_good_well_locked : well_locked ex_hb_P ex_hb_good.
+Proof.
+  split; [|split].
+  - intros run lab p Hin. cbn in Hin.
+    destruct Hin as [H|[H|[H|[]]]]; inversion H; subst; vm_compute; reflexivity.
+  - intros x t Hp. unfold ex_hb_P in Hp. destruct (N.eqb x 7); discriminate.
+  - intros x ip ic Hp. unfold ex_hb_P in Hp. destruct (N.eqb x 7) eqn:E; [|discriminate].
+    apply N.eqb_eq in E. inversion Hp; subst. vm_compute. reflexivity.
+Qed.
+
+Theorem ex_hb_good_race_free : forall s, reachable (init_state ex_hb_good) s -> ~ race s.
+Proof. apply (lockset_sound ex_hb_P). exact ex_hb_good_well_locked. Qed.
+
+(* the same with one more write by the parent AFTER the go statement: rejected, and it does race *)
+Definition ex_hb_bad : list (bool * nat * list action) :=
+  [ (true, 0, [AWrite 7%N; ASpawn 1; AWrite 7%N]);
+    (false, 1, [ARead 7%N]) ].
+
+Theorem ex_hb_bad_rejected : handoff_ok 7%N 0 1 ex_hb_bad = false.
+Proof. vm_compute. reflexivity. Qed.
+
+Theorem ex_hb_bad_races : exists s, reachable (init_state ex_hb_bad) s /\ race s.
+Proof.
+  destruct (run_sched (init_state ex_hb_bad) [0; 0]) as [s|] eqn:E; [|vm_compute in E; discriminate].
+  exists s. split.
+  - eapply run_sched_reachable; [constructor | exact E].
+  - vm_compute in E. inversion E; subst; clear E.
+    exists 0, 1. do 2 eexists. exists 7%N, KW, KR.
+    repeat split; try reflexivity. discriminate.
 Qed.
 
 (* ---------------------------------------------------------------- tables *)
